@@ -3,7 +3,10 @@ package props
 import (
 	"encoding/base64"
 	"encoding/json"
+	"github.com/volatiletech/authboss/v3/defaults"
 	"net/http"
+	"verifharness/stubs"
+	"verifharness/world"
 
 	"verifharness/verif"
 
@@ -15,6 +18,7 @@ func init() {
 	register("C07_Middleware", C07_Middleware)
 	register("C07_IssueOnlyWhenAsked", C07_IssueOnlyWhenAsked)
 	register("C07_OAuth2OnlyWhenAsked", C07_OAuth2OnlyWhenAsked)
+	register("C07_ShippedBodyReader", C07_ShippedBodyReader)
 	register("C07_ResetRevokes", C07_ResetRevokes)
 	register("C07_MiddlewareUnderFaults", C07_MiddlewareUnderFaults)
 }
@@ -197,6 +201,58 @@ func C07_OAuth2OnlyWhenAsked() {
 			raw, err := base64.URLEncoding.DecodeString(c)
 			verif.Assert(last.PID == uid && err == nil && rememberHash(string(raw)) == last.Hash, "the cookie is bound to the account that logged in")
 		}
+	} else {
+		verif.Assert(len(f.w.Store.Tokens) == nTokens && f.w.Cookies.WriteCalls == 0, "no cookie and no token when the user did not ask to be remembered")
+	}
+}
+
+// C07_ShippedBodyReader: "a cookie is only issued when the user asked to be remembered", with
+// the shipped defaults.HTTPBodyReader deciding what "asked" means: a password login through
+// form or JSON fields with the rm field absent or an arbitrary string: a remember token and
+// cookie are issued exactly when the field says "true".
+func C07_ShippedBodyReader() {
+	verif.ReplayInInterpreter()
+	jsonMode := verif.Choice("json", 2) == 1
+	o := noGuards()
+	o.totp, o.sms = false, false
+	f := newFlowWith(o, func(w *world.World) {
+		w.AB.Config.Core.BodyReader = defaults.NewHTTPBodyReader(jsonMode, false)
+	})
+	a := f.a[0]
+	verif.Assume(a.hasPw)
+	fields := map[string]string{"email": a.pid, "password": verif.String("f_password", 3)}
+	rm := verif.String("f_rm", 5)
+	hasRM := verif.Choice("rm-field", 2) == 1
+	if hasRM {
+		fields["rm"] = rm
+	}
+	r := world.Request("POST", "/login", "")
+	if jsonMode {
+		b, _ := json.Marshal(fields)
+		r.Body = &stubs.StringBody{S: string(b)}
+		r.Header.Set("Content-Type", "application/json")
+	} else {
+		for k, v := range fields {
+			r.Form[k] = []string{v}
+		}
+	}
+	f.w.Session.Del(authboss.SessionKey)
+	f.preS = f.w.Session.Snapshot()
+	nTokens := len(f.w.Store.Tokens)
+	panicked, _ := world.Try(func() { f.w.Serve(f.w.Route("POST /login"), r) })
+	if panicked || len(f.w.ErrH.Errs) > 0 {
+		return
+	}
+	if !f.issuedTo(a.pid) {
+		verif.Assert(len(f.w.Store.Tokens) == nTokens, "a failed login stores no token")
+		return
+	}
+	verif.Assert(fields["password"] == a.pw, "the login succeeded with the account's password")
+	asked := verif.And(hasRM, rm == "true")
+	verif.Witness(asked, "asked-to-be-remembered")
+	verif.Witness(verif.And(hasRM, rm != "true"), "rm-field-with-another-value")
+	if asked {
+		verif.Assert(len(f.w.Store.Tokens) == nTokens+1 && f.w.Cookies.Has(authboss.CookieRemember), "a token and a cookie are issued when the user asked to be remembered")
 	} else {
 		verif.Assert(len(f.w.Store.Tokens) == nTokens && f.w.Cookies.WriteCalls == 0, "no cookie and no token when the user did not ask to be remembered")
 	}
